@@ -249,7 +249,7 @@ func (x *Exec) frameObligations(fr *Frame, out *State, spec *FuncSpec, sfx strin
 	mods := x.evalModifies(env, spec.Modifies)
 	wholeOK := func(key string) bool {
 		for _, m := range mods {
-			if m.whole && (key == m.key || strings.HasPrefix(key, m.key+".") || strings.HasPrefix(key, m.key+"#") || strings.HasPrefix(key, m.key+"@")) {
+			if m.whole && (key == m.key || strings.HasPrefix(key, m.key+".") || strings.HasPrefix(key, m.key+"#") || strings.HasPrefix(key, m.key+"@") || strings.HasPrefix(key, m.key+"[")) {
 				return true
 			}
 		}
